@@ -2,6 +2,6 @@ INIT TraceInit
 NEXT TraceNext
 CONSTANTS MaxRec = 16640
 CONSTRAINT HighWater
-INVARIANTS Conserved WriteIsPrefix OneRecordWithheld CutDeliversAll NeverZeroNil BufBound ErrorIsTheCut
+INVARIANTS Conserved WriteIsPrefix OneRecordWithheld CutDeliversAll NeverZeroNil BufBound ErrorIsTheCut TmoKeepsOrder
 POSTCONDITION TraceAccepted
 CHECK_DEADLOCK FALSE
